@@ -27,6 +27,9 @@ type c18Case struct {
 	DataHex  string `json:"data_hex"`
 	Text     string `json:"data_text,omitempty"`
 	Rewrite  string `json:"rewrite,omitempty"`
+	// LocalOffsetMin != 0: the process runs in a local time zone that many minutes east of UTC (time.Local is set for the
+	// duration of the case): a forwarding process is not necessarily configured for UTC
+	LocalOffsetMin int `json:"process_local_zone_offset_minutes,omitempty"`
 }
 
 func encodeSafely(enc string, v any) (out []byte, err error) {
@@ -48,6 +51,11 @@ func xmlRepresentable(s []byte) bool {
 
 // c18Run: the literal fixed-point statement. Returns accepted=false when the input is rejected (no obligation).
 func c18Run(c c18Case) (accepted bool, nonCanonical bool, skippedB int, sig string, err error) {
+	if c.LocalOffsetMin != 0 {
+		old := time.Local
+		time.Local = time.FixedZone("verif-local", c.LocalOffsetMin*60)
+		defer func() { time.Local = old }()
+	}
 	data, _ := hex.DecodeString(c.DataHex)
 	tg := targetByName(c.Target)
 	r := decodeInto(c.Encoding, append([]byte{}, data...), tg)
@@ -563,6 +571,9 @@ func drawC18(rt *rapid.T) (c18Case, []string) {
 		data = b.Bytes()
 	}
 	c := c18Case{Encoding: enc, Target: tg.Name, DataHex: hex.EncodeToString(data), Rewrite: strings.Join(notes, ",")}
+	if rapid.IntRange(0, 2).Draw(rt, "localzone") == 0 {
+		c.LocalOffsetMin = rapid.SampledFrom([]int{540, -300, 330, 60, -720}).Draw(rt, "localoffset")
+	}
 	if enc != "binary" {
 		c.Text = string(data)
 	}
@@ -573,7 +584,7 @@ func TestC18FixedPoint(t *testing.T) {
 	const name = "TestC18FixedPoint"
 	rec := evid.New("C18", name, "non-canonical inputs no encoder of the library emits, built from generic trees and KMIP messages by independent writers: binary with non-zero padding, over-long big integers, booleans other than 0/1, "+
 		"unknown trailing / reordered / dropped / duplicated fields; XML and JSON with alternative lexical forms (hex and decimal strings, enumerations by name/decimal/short hex, mixed-case and numeric booleans, zoned and fractional dates, "+
-		"mask tokens with names/numbers/blanks, negative and oversized intervals, lower-case hex, TTLV elements with a tag attribute, swapped attribute/key order); targets ttlv.Value and the typed messages; "+
+		"mask tokens with names/numbers/blanks, negative and oversized intervals, lower-case hex, TTLV elements with a tag attribute, swapped attribute/key order); targets ttlv.Value and the typed messages; one case in three runs with the process's local time zone (time.Local) set to +09:00, -05:00, +05:30, +01:00 or -12:00 instead of UTC; "+
 		"only accepted inputs create an obligation; non-trivial = accepted and different from its own re-encoding; distinct by (encoding,target,bytes)").Attach(t)
 	if rp := evid.LoadReplay(name); rp != nil {
 		var c c18Case
